@@ -109,3 +109,47 @@ func HarnessC22() {
 	first := render(both, lsBoth[0])
 	vAssert(!vStrEq(first, got), "C22.records-distinct")
 }
+
+// HarnessC22Reexport: a second export after a label set was removed and
+// another one added must describe the current label sets, not the ones seen
+// by the first export.
+func HarnessC22Reexport() {
+	which := nondetRange("kind", 0, 2)
+	kind := []metrics.Kind{metrics.Counter, metrics.Gauge, metrics.Timer}[which]
+	typ := []metrics.Type{metrics.Int, metrics.Float, metrics.Int}[which]
+	v1, v2, v3 := c22Sym("v1"), c22Sym("v2"), c22Sym("v3")
+	m := c22Metric(kind, typ, []string{"a", "b"}, []c22Val{v1, v2})
+	fmtr := nondetRange("format", 0, 3)
+	render := func(m *metrics.Metric, l *metrics.LabelSet) string {
+		switch fmtr {
+		case 0:
+			return metricToGraphite("host", m, l, 60*time.Second)
+		case 1:
+			return metricToStatsd("host", m, l, 60*time.Second)
+		case 2:
+			return metricToCollectd("host", m, l, 60*time.Second)
+		}
+		return metricToVarz(m, l, false, "host")
+	}
+	for _, ls := range c22Emit(m) { // first export
+		_ = render(m, ls)
+	}
+	if m.RemoveDatum("a") != nil {
+		vAssert(false, "C22.setup")
+	}
+	d, err := m.GetDatum("c")
+	if err != nil {
+		vAssert(false, "C22.setup")
+	}
+	c22Set(d, v3)
+	fresh := c22Metric(kind, typ, []string{"b", "c"}, []c22Val{v2, v3})
+	got := c22Emit(m)
+	want := c22Emit(fresh)
+	vAssert(len(got) == len(want), "C22.second-export-lists-current-label-sets")
+	if len(got) != len(want) {
+		return
+	}
+	for i := range got {
+		vAssert(vStrEq(render(m, got[i]), render(fresh, want[i])), "C22.second-export-carries-current-values")
+	}
+}
